@@ -128,6 +128,21 @@ def wl_bloom_pairs(ctx, rng, case):
                     res.add("only-in-the-result")
                     ctx.check(snap(A, pa) == sa and snap(B, pb) == sb, "adding to the result of a set operation changed an operand (shared storage)")
                     ctx.count("aliasing_checks")
+        # an on-disk operand whose mapping changed through a REFUSED add_alt (too few hashes: some bits are written, then it raises):
+        # set operations must see the bits that check() sees
+        if pa is not None and compatible and k >= 2:
+            try:
+                A.add_alt(A.hashes("refused-key")[: rng.randint(1, k - 1)])
+            except Exception:
+                ctx.count("refused_addalt_on_disk_operand")
+            ba2 = bl.bits_of(A)
+            want2 = bytes(x & y for x, y in zip(ba2, bb))
+            i3 = A.intersection(B)
+            ctx.check(i3 is not None and bl.bits_of(i3) == want2, "intersection after a refused add_alt on an on-disk operand is not the AND of the operands' CURRENT bit arrays")
+            cu2 = popcount(bytes(x | y for x, y in zip(ba2, bb)))
+            j3 = A.jaccard_index(B)
+            ctx.check(abs(j3 - (1.0 if cu2 == 0 else popcount(want2) / cu2)) <= 1e-12, "Jaccard index after a refused add_alt on an on-disk operand ignores bits that check() sees", got=j3)
+            sa, ba = snap(A, pa), ba2
         # a filter as operand of ITSELF: the result is a new filter with the same positions, and it owns its storage
         import gc
 
